@@ -1381,8 +1381,10 @@ func checkC12(w *World, r *Report) {
 		return
 	}
 	why := "Subscription changes and events would not be serialised by one inbox, or carry another PID."
-	w.checkRow(r, row{rule: "C12.R1", fn: sub, callee: EvCall("Send", a.eSend), name: "Engine.Send", args: []string{"P0", "P0.eventStream", "lit:eventSub{pid=P1}"}, why: why})
-	w.checkRow(r, row{rule: "C12.R1", fn: unsub, callee: EvCall("Send", a.eSend), name: "Engine.Send", args: []string{"P0", "P0.eventStream", "lit:eventUnsub{pid=P1}"}, why: why})
+	w.checkRow(r, row{rule: "C12.R1", fn: sub, callee: EvCall("Send", a.eSend), name: "Engine.Send", args: []string{"P0", "P0.eventStream", "lit:eventSub{pid=P1}"}, why: why,
+		alts: []rowAlt{{EvCall("send", a.esend), "send", []string{"P0", "P0.eventStream", "lit:eventSub{pid=P1}", "K:nil"}}}})
+	w.checkRow(r, row{rule: "C12.R1", fn: unsub, callee: EvCall("Send", a.eSend), name: "Engine.Send", args: []string{"P0", "P0.eventStream", "lit:eventUnsub{pid=P1}"}, why: why,
+		alts: []rowAlt{{EvCall("send", a.esend), "send", []string{"P0", "P0.eventStream", "lit:eventUnsub{pid=P1}", "K:nil"}}}})
 	w.checkRow(r, row{rule: "C12.R1", fn: a.eBroadcast, callee: EvCall("send", a.esend), name: "send", args: []string{"P0", "P0.eventStream", "P1", "K:nil"}, why: why,
 		excuse: func(g *FG) []Edge { n, _ := w.nilEdges(g, "P0.eventStream"); return n }})
 
